@@ -125,6 +125,93 @@ def judge_overwrite(case):
     return None
 
 
+def gen_scenario(rng):
+    """hand-shaped layouts the document grammar does not produce: one dynamic node under two paths (YAML anchor / alias), and !eval
+    consumers that reach dynamic nodes by (nested) name.  Returns entries [(key, text)] per layout, probes and the calls expected."""
+    n = rng.randint(1, 9)
+    kind = rng.choice(['alias', 'alias_nested', 'eval_top', 'eval_partial', 'eval_partial_deep'])
+    if kind in ('alias', 'alias_nested'):
+        pair = [('a', f'!call:vmod.f {{u: {n}}}'), ('b', None)]      # the later one of the two becomes the alias
+        rest = [('r', '!xref P.a'), ('r2', '!xref P.b'), ('user', '!call:vmod.g {p: !xref P.a, q: !xref P.b}'), ('l', '[!xref P.b, !xref P.a]')]
+        rest = rng.sample(rest, rng.randint(1, len(rest)))
+        probes = ['C.a is C.b'] + {'r': ['C.r is C.a'], 'r2': ['C.r2 is C.a'], 'user': ["C.user.kwargs['p'] is C.a", "C.user.kwargs['q'] is C.a"], 'l': ['C.l[0] is C.a', 'C.l[1] is C.a']}.get('x', [])
+        for k, _ in rest:
+            probes += {'r': ['C.r is C.a'], 'r2': ['C.r2 is C.a'], 'user': ["C.user.kwargs['p'] is C.a", "C.user.kwargs['q'] is C.a"], 'l': ['C.l[0] is C.a', 'C.l[1] is C.a']}[k]
+        expect = ['vmod.f'] + (['vmod.g'] if any(k == 'user' for k, _ in rest) else [])
+        nested = kind == 'alias_nested'
+        layouts = []
+        for _ in range(3):
+            ents = pair + rest
+            rng.shuffle(ents)
+            seen = False
+            out = []
+            for k, v in ents:
+                if k in ('a', 'b'):
+                    out.append((k, ('*s' if seen else '&s ' + pair[0][1])))
+                    seen = True
+                else:
+                    out.append((k, v.replace('P.', 'box.' if nested else '')))
+            body = '{' + ', '.join(f'{k}: {v}' for k, v in out) + '}'
+            layouts.append('{box: ' + body + ', z: 0}' if nested else body)
+        probes = [p.replace('C.', 'cfg.box.' if nested else 'cfg.') for p in probes]
+        return dict(kind=kind, layouts=layouts, probes=probes, expect=sorted(expect))
+    if kind == 'eval_top':
+        ents = [('x', f'!call:vmod.f {{u: {n}}}'), ('e', '!eval "x"'), ('r', '!xref x'), ('g', '!call:vmod.g {p: !xref x, q: !xref e}')]
+        probes = ['cfg.e is cfg.x', 'cfg.r is cfg.x', "cfg.g.kwargs['p'] is cfg.x", "cfg.g.kwargs['q'] is cfg.x"]
+        expect = ['vmod.f', 'vmod.g']
+        layouts = []
+        for _ in range(3):
+            e2 = list(ents)
+            rng.shuffle(e2)
+            layouts.append('{' + ', '.join(f'{k}: {v}' for k, v in e2) + '}')
+        return dict(kind=kind, layouts=layouts, probes=probes, expect=sorted(expect))
+    # an !eval inside a mapping reaches a sibling through the name of its own (in-progress) ancestor, while an unrelated top-level
+    # key has the same name as that sibling
+    deep = kind == 'eval_partial_deep'
+    pre = 'box.inner.' if deep else 'box.'
+    inner = [('y', f'!eval "{pre}x.f"'), ('x', f'!call:vmod.f {{u: {n}}}'), ('w', f'!eval "len({pre}v)"'), ('v', '[1, 2, 3]')]
+    top = [('x', '!call vmod.g'), ('by_xref', '!xref x'), ('by_eval', '!eval "x"')]
+    cp = 'cfg.box.inner.' if deep else 'cfg.box.'
+    probes = [f"{cp}y == 'vmod.f'", f"{cp}w == 3", f"isinstance({cp}x, Rec) and {cp}x.f == 'vmod.f'", "isinstance(cfg.x, Rec) and cfg.x.f == 'vmod.g'",
+              'cfg.by_xref is cfg.x', 'cfg.by_eval is cfg.x']
+    layouts = []
+    for _ in range(3):
+        i2, t2 = list(inner), list(top)
+        rng.shuffle(i2)
+        rng.shuffle(t2)
+        body = '{' + ', '.join(f'{k}: {v}' for k, v in i2) + '}'
+        if deep:
+            body = '{inner: ' + body + ', o: 1}'
+        ents = t2 + [('box', body)]
+        rng.shuffle(ents)
+        layouts.append('{' + ', '.join(f'{k}: {v}' for k, v in ents) + '}')
+    return dict(kind=kind, layouts=layouts, probes=probes, expect=['vmod.f', 'vmod.g'])
+
+
+def run_scenarios(rep, rng, n):
+    from .. import scenrun
+    scens = [gen_scenario(rng) for _ in range(n)]
+    flat = [dict(texts=[l], probes=s['probes']) for s in scens for l in s['layouts']]
+    res = scenrun.run_batch(flat)
+    it = iter(res)
+    for s in scens:
+        s['results'] = [next(it) for _ in s['layouts']]
+        rep.count('scenario ' + s['kind'])
+
+    def judge_s(s):
+        for l, r in zip(s['layouts'], s['results']):
+            if r['kind'] != 'ok':
+                return dict(text=l, reason='build / evaluation fails (or crashes / hangs) in this layout', got=r['kind'], err=r.get('err'))
+            if sorted(r['calls']) != s['expect']:
+                return dict(text=l, reason='every dynamic node must run exactly once', expected_calls=s['expect'], observed=r['calls'])
+            bad = [p for p, v in zip(s['probes'], r['probes']) if v is not True]
+            if bad:
+                return dict(text=l, reason='a consumer does not see the object produced by the dynamic node (or the value depends on the layout)', failing_probes=bad)
+        return None
+    base.run_oracle(rep, 'C10', 'aliased dynamic nodes / !eval consumers by (nested) name, three key orders each', scens, judge_s,
+                    show=lambda s: dict(scenario=True, kind=s['kind'], layouts=s['layouts'], probes=s['probes'], expect=s['expect']))
+
+
 def run(rep, tier, rng):
     rep.rule = ('configs with recording !call/!bind nodes consumed through !xref (forward/backward/chained), call arguments and lists, in 1-2 stages where later stages overwrite or delete '
                 'dynamic nodes; every config is also built with the keys of all mappings permuted. non-trivial = >= 1 call node with >= 1 consumer; distinct = hash')
@@ -146,6 +233,7 @@ def run(rep, tier, rng):
         rep.case(t, '!call' in t and ('!xref' in t or '!ref' in t), sample=[gen.render(d) for d in c['docs']])
     ow = [c for c in (gen_overwrite_case(rng) for _ in range(60 if tier == 'quick' else 600)) if c]
     base.run_oracle(rep, 'C10', 'overwritten / deleted / re-targeted dynamic nodes never run', ow, judge_overwrite, show=lambda c: dict(overwrite=True, **c))
+    run_scenarios(rep, rng, 40 if tier == 'quick' else 400)
     base.run_oracle(rep, 'C10', 'exactly-once / same object / key-order independence', inputs, judge,
                     show=lambda c: dict(docs=[gen.render(d) for d in c['docs']], perm=[gen.render(d) for d in c['perm']]))
 
@@ -155,6 +243,12 @@ def replay(data):
     if 'input' in r:
         from ..reparse import parse_doc
         x = r['input']
+        if x.get('scenario'):
+            from .. import scenrun
+            res = scenrun.run_batch([dict(texts=[l], probes=x['probes']) for l in x['layouts']])
+            bad = [(l, r) for l, r in zip(x['layouts'], res) if r['kind'] != 'ok' or sorted(r['calls']) != x['expect'] or any(v is not True for v in r['probes'])]
+            print('replay:', 'property FAILS' if bad else 'property holds', bad[:1])
+            return 1 if bad else 0
         if x.get('overwrite'):
             f = judge_overwrite(x)
             print('replay:', 'property FAILS' if f else 'property holds', f or '')
